@@ -16,7 +16,9 @@ EXPLANATION = (
     "pseudo-element list contains the databases' marker tokens, UCLCHEM's keyword list contains every key of reactant2type plus NAN; R3 arity: "
     "every destructuring of a split line has as many targets as the format has fields and the starred part is consumed by slices of matching "
     "total length; R4 fixed widths: KIDA slices are contiguous [:34], [34:90], [90:] with 34 = 3*11+1, 56 = 5*11+1 as naunet's own KIDA writer "
-    "lays them out; Leeds label/width tables have equal length and sum to the 125-column record, the cursor advances once per field; R5 every "
+    "lays them out (decided on the constant bounds after slices of slices are composed); every attribute of a Leeds record is decoded from its published columns of the "
+    "125-column record, whatever the way the line is cut (parsers are read in their folded form, pymodel.folded: helpers put back, class-level tables in place, static loops "
+    "over zip / enumerate / accumulate of literal tables unrolled); R5 every "
     "numeric attribute is read from the field position the format's layout (DESIGN Appendix C) gives it and converted with int/float; R6 code "
     "tables map each external code to the ReactionType value the format definition gives it (Appendix B); R7 temperature-window fields are decoded as written "
     "(shared with C06.R4: KROME operator tokens / d-exponents / no-bound spellings or a number extractor that admits every exponent spelling; float(field) "
